@@ -109,6 +109,12 @@ func (p c12Probe) canon() string {
 // c12Handshake runs `client` (which must perform a TLS client handshake over the conn it is
 // given) against a tls.Server presenting serverBy[k].
 func c12Handshake(k int, client func(conn net.Conn) error) c12Probe {
+	return c12HandshakeAcc(k, nil, client)
+}
+
+// c12HandshakeAcc: as c12Handshake; the server's CertificateRequest names the CAs of the client
+// certificates acc (nil = no list: any certificate will do).
+func c12HandshakeAcc(k int, acc []int, client func(conn net.Conn) error) c12Probe {
 	pki := c12GetPKI()
 	var p c12Probe
 	p.ran = true
@@ -123,6 +129,12 @@ func c12Handshake(k int, client func(conn net.Conn) error) c12Probe {
 			p.alpn = append([]string(nil), chi.SupportedProtos...)
 			return nil, nil
 		},
+	}
+	if len(acc) > 0 {
+		scfg.ClientCAs = x509.NewCertPool()
+		for _, j := range acc {
+			scfg.ClientCAs.AddCert(pki.clientCAs[j].cert)
+		}
 	}
 	done := make(chan struct{})
 	go func() {
@@ -281,6 +293,10 @@ func c12GenOp(s *verifh.Session, dir string) c12Op {
 // c12Measure performs the handshake stack `stack` of client c would make for a new connection
 // to c12UnitHost.
 func c12Measure(c *Client, stack string, onlyH1 bool, k int) (p c12Probe, panicText string) {
+	return c12MeasureAcc(c, stack, onlyH1, k, nil)
+}
+
+func c12MeasureAcc(c *Client, stack string, onlyH1 bool, k int, acc []int) (p c12Probe, panicText string) {
 	t := c.GetTransport()
 	ctx, cancel := context.WithTimeout(context.Background(), 5*time.Second)
 	defer cancel()
@@ -288,13 +304,13 @@ func c12Measure(c *Client, stack string, onlyH1 bool, k int) (p c12Probe, panicT
 	txt, panicked := verifh.Safely(func() {
 		switch stack {
 		case "h1":
-			p = c12Handshake(k, func(conn net.Conn) error {
+			p = c12HandshakeAcc(k, acc, func(conn net.Conn) error {
 				pc := &persistConn{t: t, conn: conn, cacheKey: connectMethodKey{scheme: "https", addr: c12UnitHost + ":443", onlyH1: onlyH1}}
 				return pc.addTLS(ctx, c12UnitHost, nil, false)
 			})
 		case "h2":
 			t.t2.DialTLS = func(network, addr string, cfg *tls.Config) (net.Conn, error) {
-				p = c12Handshake(k, func(conn net.Conn) error {
+				p = c12HandshakeAcc(k, acc, func(conn net.Conn) error {
 					return tls.Client(conn, cfg).HandshakeContext(ctx)
 				})
 				return nil, errC12ProbeDone
@@ -306,7 +322,7 @@ func c12Measure(c *Client, stack string, onlyH1 bool, k int) (p c12Probe, panicT
 				t.EnableHTTP3()
 			}
 			t.t3.Dial = func(ctx context.Context, addr string, cfg *tls.Config, qc *quic.Config) (quic.EarlyConnection, error) {
-				p = c12Handshake(k, func(conn net.Conn) error {
+				p = c12HandshakeAcc(k, acc, func(conn net.Conn) error {
 					return tls.Client(conn, cfg).HandshakeContext(ctx)
 				})
 				return nil, errC12ProbeDone
